@@ -3,6 +3,8 @@ import CedarVerif.Lemmas.ManifestEnd
 import CedarVerif.Lemmas.ManifestValid
 import CedarVerif.Lemmas.ManifestLitValid
 import CedarVerif.Lemmas.ManifestSorted
+import CedarVerif.Lemmas.ManifestMono
+import CedarVerif.Lemmas.ManifestGrow
 import CedarVerif.Lemmas.TypecheckPolicy
 import CedarVerif.Thm.C01
 import CedarVerif.Thm.C11
@@ -86,10 +88,24 @@ What is PROVED here:
                                  `sortedStore_slice`: the slice is key-sorted (proved, Lemmas/ManifestSorted.lean);
   * `ctxWF_not_from_conformance` `CtxWF` is NOT derivable from `ConformsRequest` (a context list binding a key twice conforms).
 
-What REMAINS: the "keeps more entities" half of `slice_monotone` (store level: `t ≤ t'` ⇒ slice by `t` is a sub-store of the slice by `t'`):
-`slice_monotone_entities_needs_flags` proves that it is FALSE for `AccessTrie.le` alone (the order ignores the `is_entity_type`
-annotations; two tries requesting the same paths with different annotations give incomparable slices), the positive statement for
-tries with agreeing annotations is open; `typedAst` is a specification-level definition (Lemmas/ManifestValid.lean, written
+  * `slice_monotone_store`       STORE-LEVEL MONOTONICITY ("a larger trie keeps more entities"): `rootsLe t t'` and agreeing
+                                 `is_entity_type` annotations (`FlagsAgreeRoots t t'`: at corresponding nodes `t'` is annotated
+                                 entity-typed only where `t` is; nothing is required of ancestors tries) ⇒ the store sliced
+                                 by `t` is a sub-store of the store sliced by `t'` (every entity, with at least its attributes
+                                 and ancestors).  No well-formedness / conformance hypothesis.  Ingredients
+                                 (Lemmas/ManifestMono.lean): `pruneFields_le` (pruning respects the annotated order `leA`),
+                                 `expandValue_mono` / `allRequests_mono` (every entity request is matched by a larger one),
+                                 `loadAll_below` (merged loads), `ancValue_mono` / `ancRequest_mono`, `addAncestors_upper`.
+                                 `slice_monotone_entities_needs_flags`: the annotation condition cannot be dropped;
+  * `manifest_union_grows`       adding a policy only grows the slice: the manifest entry of `ps ++ [p]` is `≥` the entry of
+                                 `ps` with agreeing annotations (`rootsLeA`; `rootsLe_union_right`: `t₀ ≤ t ⇒ t₀ ≤ t ∪ v`,
+                                 `toTypedRoots_mono`: `to_typed` maps `≤` to `leA`; Lemmas/ManifestGrow.lean), hence the
+                                 slices are ordered for every request and store.  Hypothesis: the un-annotated trie of `ps`
+                                 is `≤` itself (unique root / ancestors-trie keys; checkable, not derived from the analysis).
+
+What REMAINS: deriving the self-comparability hypothesis of `manifest_union_grows` from the analysis (`RootsWF` covers children
+keys only, not root keys / ancestors tries);
+`typedAst` is a specification-level definition (Lemmas/ManifestValid.lean, written
 from typecheck.rs; the differential run takes the typed ASTs from Rust and does not diff `typedAst` against them).
 `FullStatement` (whose hypothesis `p.condition = te.erase` restricts it to typed ASTs without short-circuit transformation)
 is FALSE for the analysed code outside the stated exclusions' complement in two ways found by this check (see
@@ -364,8 +380,7 @@ from `t'`") does NOT hold for the order `AccessTrie.le` / `rootsLe` alone, which
 and differ only in the annotation of `r` give slices of which the first is not a sub-store of the second — under the
 entity-typed annotation `prune_child_entity_dereferences` drops the request for `r.x`, so the "larger" slice has `r = {}`
 while the "smaller" one has `r = {x: 1}`.  So any true statement needs a side condition on the annotations (agreeing
-`is_entity_type` flags at corresponding nodes, or `FlagsRoots` for both tries); the positive theorem under that condition is
-NOT proved here. -/
+`is_entity_type` flags at corresponding nodes); the positive theorem under that condition is `slice_monotone_store` below. -/
 theorem slice_monotone_entities_needs_flags :
     rootsLe MonoCex.small MonoCex.large ∧ rootsLe MonoCex.large MonoCex.small ∧
     ¬ SubStore (sliceStorePure MonoCex.large MonoCex.req MonoCex.store) (sliceStorePure MonoCex.small MonoCex.req MonoCex.store) := by
@@ -493,6 +508,109 @@ example :
       simp only [Ex.pol3, SafeOps, and_true]
       exact ⟨nonRec_of_check rfl, nonRec_of_check rfl⟩
   · decide +kernel
+
+/-! ## "a larger trie keeps more ENTITIES": the positive statement, under agreeing annotations -/
+
+/-- C17, STORE-LEVEL MONOTONICITY.  If `t'` requests everything `t` requests (`rootsLe`) and the `is_entity_type` annotations
+agree (`FlagsAgreeRoots t t'`: at corresponding nodes — same root, same path of fields — `t'` is annotated entity-typed only
+where `t` is; ancestors tries need no condition, nothing reads annotations there), then the store sliced by `t` is a
+sub-store of the store sliced by `t'`: every entity of the smaller slice is in the larger one, with at least its attributes
+(`TrimKVs`) and at least its ancestors.  (`SubStore big small` reads "small invents nothing over big".)
+`slice_monotone_entities_needs_flags` shows that the annotation condition cannot be dropped.  No well-formedness (unique
+keys) or conformance hypothesis is needed. -/
+theorem slice_monotone_store (t t' : RootAccessTrie) (req : Request) (es s s' : Entities)
+    (hle : rootsLe t t') (hfl : FlagsAgreeRoots t t')
+    (hs : sliceStore (some t) req es = .ok s) (hs' : sliceStore (some t') req es = .ok s') : SubStore s' s := by
+  have e1 : s = sliceStorePure t req es := by
+    simp only [sliceStore] at hs
+    split at hs
+    · cases hs
+    · cases hs; rfl
+  have e2 : s' = sliceStorePure t' req es := by
+    simp only [sliceStore] at hs'
+    split at hs'
+    · cases hs'
+    · cases hs'; rfl
+  subst e1; subst e2
+  exact sliceStorePure_mono t t' req es (rootsLeA_of_le_agree t t' hle hfl)
+
+/-- the same for the pure result (whether or not one of the slicer's `assert!`s would fire) -/
+theorem slice_monotone_store_pure (t t' : RootAccessTrie) (req : Request) (es : Entities)
+    (hle : rootsLe t t') (hfl : FlagsAgreeRoots t t') :
+    SubStore (sliceStorePure t' req es) (sliceStorePure t req es) :=
+  sliceStorePure_mono t t' req es (rootsLeA_of_le_agree t t' hle hfl)
+
+namespace Ex
+/-- the manifest entry of the first policy alone -/
+def manifest1 : RootAccessTrie := match manifestOfEnvs schema rt [pol.cond] with | .ok t => t | .error _ => []
+def sliced1 : Entities := match sliceStore (some manifest1) req store with | .ok es => es | .error _ => []
+end Ex
+
+/-- non-vacuity of `slice_monotone_store`: the manifest of `p0` alone against the manifest of `p0, p1, p2` — all
+hypotheses hold, and the larger slice is strictly larger (it keeps `alice`'s ancestor `Group::"g"`, requested by `p2` only) -/
+example : SubStore Ex.sliced' Ex.sliced1 ∧
+    (Ex.sliced1.find? Ex.alice).map (·.ancestors) = some [] ∧ (Ex.sliced'.find? Ex.alice).map (·.ancestors) = some [Ex.grp] := by
+  refine ⟨?_, by decide +kernel, by decide +kernel⟩
+  have hs : sliceStore (some Ex.manifest1) Ex.req Ex.store = .ok Ex.sliced1 := by
+    obtain ⟨x, hx⟩ := ok_of_check (r := sliceStore (some Ex.manifest1) Ex.req Ex.store) (by decide +kernel)
+    have : Ex.sliced1 = x := by simp only [Ex.sliced1, hx]
+    rw [this]; exact hx
+  have hs' : sliceStore (some Ex.manifest) Ex.req Ex.store = .ok Ex.sliced' := by
+    obtain ⟨x, hx⟩ := ok_of_check (r := sliceStore (some Ex.manifest) Ex.req Ex.store) (by decide +kernel)
+    have : Ex.sliced' = x := by simp only [Ex.sliced', hx]
+    rw [this]; exact hx
+  exact slice_monotone_store Ex.manifest1 Ex.manifest Ex.req Ex.store _ _
+    (rootsLeB_sound _ _ (by decide +kernel)) (flagsAgreeRootsB_sound _ _ (by decide +kernel)) hs hs'
+
+/-- C17: ADDING A POLICY CAN ONLY GROW THE SLICE.  If the analysis succeeds for the typed conditions `ps` and for
+`ps ++ [p]` (same schema, same request type), then the manifest entry of `ps ++ [p]` requests everything the entry of `ps`
+requests, with agreeing annotations (`rootsLeA` = `rootsLe` + agreeing `is_entity_type` flags: both tries are annotated by
+`to_typed` from the same schema types along the same paths), hence — for every request and store — the store sliced for
+`ps` is a sub-store of the store sliced for `ps ++ [p]`.  Hypothesis `hself`: the un-annotated trie of `ps` is comparable
+with itself (`rootsLe t0 t0`), which holds when root keys and ancestors-trie keys are unique, as they are in Rust's hash
+maps (the order looks keys up, so a trie with a duplicated key need not be `≤` itself); it is checkable (`rootsLeB`) and
+is NOT derived here from the analysis. -/
+theorem manifest_union_grows (s : Schema) (rt : ReqType) (ps : List TExpr) (p : TExpr) (t0 t t' : RootAccessTrie)
+    (h0 : manifestOfEnvs.go [] ps = .ok t0) (hself : rootsLe t0 t0)
+    (hm : manifestOfEnvs s rt ps = .ok t) (hm' : manifestOfEnvs s rt (ps ++ [p]) = .ok t') :
+    rootsLe t t' ∧ rootsLeA t t' ∧
+    ∀ (req : Request) (es : Entities), SubStore (sliceStorePure t' req es) (sliceStorePure t req es) := by
+  simp only [manifestOfEnvs, h0] at hm
+  simp only [manifestOfEnvs, go_snoc, h0] at hm'
+  cases hp : manifestOfExpr p with
+  | error x => simp [hp] at hm'
+  | ok r =>
+    simp only [hp] at hm'
+    have hle : rootsLe t0 (unionRoots t0 r.global) := rootsLe_union_right r.global t0 t0 hself
+    have hA := toTypedRoots_mono s rt _ _ t t' hle hm hm'
+    exact ⟨rootsLe_of_rootsLeA _ _ hA, hA, fun req es => sliceStorePure_mono t t' req es hA⟩
+
+namespace Ex
+def conds2 : List TExpr := [pol.cond, pol2.cond]
+def untyped2 : RootAccessTrie := match manifestOfEnvs.go [] conds2 with | .ok t => t | .error _ => []
+def manifest2 : RootAccessTrie := match manifestOfEnvs schema rt conds2 with | .ok t => t | .error _ => []
+end Ex
+
+/-- non-vacuity of `manifest_union_grows`: `p0, p1` extended by `p2` (`principal in Group::"g"`): all hypotheses hold; the
+grown slice keeps `alice`'s ancestor, the smaller one does not -/
+example : SubStore (sliceStorePure Ex.manifest Ex.req Ex.store) (sliceStorePure Ex.manifest2 Ex.req Ex.store) ∧
+    ((sliceStorePure Ex.manifest2 Ex.req Ex.store).find? Ex.alice).map (·.ancestors) = some [] ∧
+    ((sliceStorePure Ex.manifest Ex.req Ex.store).find? Ex.alice).map (·.ancestors) = some [Ex.grp] := by
+  refine ⟨?_, by decide +kernel, by decide +kernel⟩
+  have h0 : manifestOfEnvs.go [] Ex.conds2 = .ok Ex.untyped2 := by
+    obtain ⟨x, hx⟩ := ok_of_check (r := manifestOfEnvs.go [] Ex.conds2) (by decide +kernel)
+    have : Ex.untyped2 = x := by simp only [Ex.untyped2, hx]
+    rw [this]; exact hx
+  have hm : manifestOfEnvs Ex.schema Ex.rt Ex.conds2 = .ok Ex.manifest2 := by
+    obtain ⟨x, hx⟩ := ok_of_check (r := manifestOfEnvs Ex.schema Ex.rt Ex.conds2) (by decide +kernel)
+    have : Ex.manifest2 = x := by simp only [Ex.manifest2, hx]
+    rw [this]; exact hx
+  have hm' : manifestOfEnvs Ex.schema Ex.rt (Ex.conds2 ++ [Ex.pol3.cond]) = .ok Ex.manifest := by
+    obtain ⟨x, hx⟩ := ok_of_check (r := manifestOfEnvs Ex.schema Ex.rt Ex.conds) (by decide +kernel)
+    have : Ex.manifest = x := by simp only [Ex.manifest, hx]
+    rw [this]; exact hx
+  exact (manifest_union_grows Ex.schema Ex.rt Ex.conds2 Ex.pol3.cond Ex.untyped2 Ex.manifest2 Ex.manifest h0
+    (rootsLeB_sound _ _ (by decide +kernel)) hm hm').2.2 Ex.req Ex.store
 
 /-! ## strictly valid policies, conformant data: the C03 and C11 notions -/
 
